@@ -368,7 +368,8 @@ def poc_fit_line_polynomial(force, ret_details=False):
         params.add('d', value=np.mean(y[:10]))
         params.add('x0', value=x0)
         # slope
-        params.add('m', value=y[x0]/x0)
+        # (no baseline: the initial contact point is the first data point)
+        params.add('m', value=y[x0]/x0 if x0 else 0)
         # The polynomial fitting parameters are supposed to be
         # greater than zero (source?). We set the minimum to 1e-3 so
         # the fitting algorithm becomes more stable. Also, the initial
